@@ -260,35 +260,26 @@ func init() {
 						idx = e
 					}
 				}
+				// once the context is done the loop is never entered again: no path from the ctx case back to the select
+				_ = idx
+				isSel := func(in ssa.Instruction) bool { return in == ssa.Instruction(sel) }
 				returnsOnCtx := false
-				for _, b := range fn.Blocks {
-					if _, isRet := b.Instrs[len(b.Instrs)-1].(*ssa.Return); !isRet {
-						continue
-					}
-					for _, f := range facts(b) {
-						if cm, okc := normFact(f); okc && cm.X == idx && cm.Op == token.EQL {
-							if k, _ := constInt(cm.Y); int(k) < len(sel.States) {
-								if _, why := boundedChan(sel.States[k].Chan); why == "ctx.Done()" {
-									returnsOnCtx = true
-								}
-							}
+				for k, st := range sel.States {
+					if _, why := boundedChan(st.Chan); why == "ctx.Done()" {
+						if cb := selectCaseBlock(sel, k); cb != nil && reachFromBlock(cb, isSel, nil) == nil {
+							returnsOnCtx = true
 						}
 					}
 				}
 				ok = ok && returnsOnCtx
 			}
-			// and CloseIdles() == true returns
+			// and CloseIdles() == true ends the loop as well
 			retOnDrain := false
 			eachInstr(fn, func(in ssa.Instruction) {
-				if c, okc := in.(*ssa.Call); okc && c.Call.IsInvoke() && c.Call.Method.Name() == "CloseIdles" {
-					for _, b := range fn.Blocks {
-						if _, isRet := b.Instrs[len(b.Instrs)-1].(*ssa.Return); isRet {
-							for _, f := range facts(b) {
-								if cm, okc := normFact(f); okc && cm.boolIs(c, true) {
-									retOnDrain = true
-								}
-							}
-						}
+				if c, okc := in.(*ssa.Call); okc && c.Call.IsInvoke() && c.Call.Method.Name() == "CloseIdles" && sel != nil {
+					isSel := func(j ssa.Instruction) bool { return j == ssa.Instruction(sel) }
+					if reachWalkEnv(c.Block(), instrIndex(c)+1, isSel, nil, map[ssa.Value]bool{c: true}) == nil {
+						retOnDrain = true
 					}
 				}
 			})
